@@ -186,6 +186,13 @@ def run_case(shape, how, pos, kw, via_send):
     else:
         exec(source_of(name, params, star, dstar, is_async), ns)  # noqa: S102
         fn = ns[name]
+        if how == "wrapped":
+            # a decorator written with functools.wraps: the binding follows __wrapped__, i.e. the callback's OWN signature
+            inner = fn
+
+            @functools.wraps(inner)
+            def fn(*a, **k):
+                return inner(*a, **k)
         if how == "partial":
             positional = [p for p in params if p[1] in ("PO", "PK")]
             if not positional:
@@ -357,7 +364,7 @@ def run(limit_s, seed, max_named=2):
     rnd = random.Random(seed)
     all_shapes = shapes(max_named)
     rnd.shuffle(all_shapes)
-    hows = ["function", "method", "partial", "async"]
+    hows = ["function", "method", "partial", "async", "wrapped"]
     n = 0
     exhaustive = True
     for kind, fn in SPECIAL:
